@@ -84,6 +84,16 @@ class Plugin(BasePlugin):
             feats.add('guard:' + ('in' if not flags & 4 else 'out'))
         return feats
 
+    def neighbours(self, case, rng):
+        out = list(self.shrink(case))
+        subs = [None, 0, 1, 'a', True, [], {}] + [
+            v for v in gen.sub_values(case['doc']) if not isinstance(v, dict) or '_id' not in v][:12]
+        for f in swap_operands(case['filter'], subs):
+            if isinstance(f, dict):
+                out.append(dict(case, filter=f))
+        rng.shuffle(out)
+        return out
+
     def shrink(self, case):
         for f in shrink_value(case['filter']):
             if isinstance(f, dict):
@@ -95,6 +105,26 @@ class Plugin(BasePlugin):
             yield dict(case, others=[])
         if case.get('via') == 'find':
             yield dict(case, via='direct', others=[])
+
+
+def swap_operands(f, subs):
+    """Filters obtained by replacing one operand/literal of f by one of subs."""
+    if isinstance(f, dict):
+        for k, v in f.items():
+            if not isinstance(v, (dict, list)) or k in ('$eq', '$ne', '$in', '$nin', '$all'):
+                for s in subs:
+                    w = dict(f)
+                    w[k] = [s] if k in ('$in', '$nin', '$all') else s
+                    yield w
+            if isinstance(v, (dict, list)):
+                for y in swap_operands(v, subs):
+                    w = dict(f)
+                    w[k] = y
+                    yield w
+    elif isinstance(f, list):
+        for i, x in enumerate(f):
+            for y in swap_operands(x, subs):
+                yield f[:i] + [y] + f[i + 1:]
 
 
 def has_date_tz(v):
